@@ -393,9 +393,19 @@ func (s *Service) unblindProposal(ctx context.Context,
 	}
 
 	// One slot per provider, so that a provider answering after the first never blocks on the send.
-	respCh := make(chan *api.VersionedSignedProposal, len(providers))
+	respCh := make(chan *api.VersionedSignedProposal, len(providers)+1)
+	// Once every provider has given up without handing over a block none can arrive any more; say so
+	// with a nil entry (for which the channel has a slot of its own) rather than waiting for a context
+	// that may not end before Vouch does.  A block handed over earlier is ahead of it in the channel.
+	var providersWg sync.WaitGroup
+	providersWg.Add(len(providers))
+	go func() {
+		providersWg.Wait()
+		respCh <- nil
+	}()
 	for _, provider := range providers {
 		go func(ctx context.Context, provider builderclient.UnblindedProposalProvider, ch chan *api.VersionedSignedProposal) {
+			defer providersWg.Done()
 			log := s.log.With().Str("provider", provider.Address()).Logger()
 			log.Trace().Msg("Unblinding block with provider")
 
@@ -456,6 +466,10 @@ func (s *Service) unblindProposal(ctx context.Context,
 		s.log.Warn().Msg("Failed to obtain unblinded block")
 		return errors.New("failed to obtain unblinded block")
 	case signedBlock := <-respCh:
+		if signedBlock == nil {
+			s.log.Warn().Msg("No provider returned the unblinded block")
+			return errors.New("failed to obtain unblinded block")
+		}
 		if e := s.log.Trace(); e.Enabled() {
 			data, err := json.Marshal(signedBlock)
 			if err == nil {
